@@ -8,6 +8,8 @@ PRELUDE = ("name c03\nversion 1.0\nfloat x = 0.75\nint n = 5\ncomplex z = 0.5-1j
 ENV = {"x": 0.75, "n": 5, "z": complex(0.5, -1), "A": [7, 4, 1, 6], "B": [0.25, 2.5, -3.0]}
 PRELUDE2 = PRELUDE + "G(A[1], B[2]) | 0\nint array A =\n    9, 8, 3, 6\nfloat array B =\n    0.5\n    1.25\n    4.0\n"
 ENV2 = {"x": 0.75, "n": 5, "z": complex(0.5, -1), "A": [9, 8, 3, 6], "B": [0.5, 1.25, 4.0]}
+PRELUDE3 = PRELUDE + "G(A[1], B[2]) | 0\nint A = A*A-A\nfloat B = B*B\n"
+ENV3 = {"x": 0.75, "n": 5, "z": complex(0.5, -1), "A": [42, 12, 0, 30], "B": [0.0625, 6.25, 9.0]}
 FNS_QUICK = ["sin", "sqrt", "exp"]
 FNS_ALL = ["sin", "cos", "tan", "arcsin", "arccos", "arctan", "sinh", "cosh", "tanh", "arcsinh", "arccosh", "arctanh", "sqrt", "log", "exp"]
 
@@ -17,7 +19,7 @@ def judge(case):
     from .. import realrun
     e, v, sd = case["e"], case["v"], case["seed"]
     rng = random.Random(sd)
-    pre, env = (PRELUDE, ENV) if case.get("env", 1) == 1 else (PRELUDE2, ENV2)
+    pre, env = {1: (PRELUDE, ENV), 2: (PRELUDE2, ENV2), 3: (PRELUDE3, ENV3)}[case.get("env", 1)]
     text = pre + "G(" + absyn.render_expr(e, rng) + ") | 0\n"
     out = {"text": text}
     # the rendered text must parse back to exactly the tree TLC enumerated (binding table = ANTLR's tree)
@@ -62,7 +64,7 @@ def run(rep, tier, seed):
     from .. import realrun
     K = 2
     fns = FNS_QUICK if tier == "quick" else FNS_ALL
-    cfg = ("CONSTANT K = %d\nCONSTANT FnMenu = {%s}\nINIT Init\nNEXT Next\nINVARIANT KindRule\nINVARIANT BracketsTransparent\n"
+    cfg = ("CONSTANT K = %d\nCONSTANT FnMenu = {%s}\nCONSTANT StrictDomains <- Lenient\nINIT Init\nNEXT Next\nINVARIANT KindRule\nINVARIANT BracketsTransparent\n"
            "INVARIANT NegIsZeroMinus\nCONSTRAINT Emit\n" % (K, ",".join('"%s"' % f for f in fns)))
     r = common.run_tlc("MC_C03", cfg, timeout=3000)
     common.require_ok(r, "MC_C03")
